@@ -286,15 +286,17 @@ Definition collect_items (hint : option nat) (items : list val) : coutcome :=
 Definition collect_raw (s : it) : coutcome := collect_items (snd (size_hint s)) (drain s).
 
 (* ---- the library's adaptors as constructors of states, with their guards ------------------------ *)
-(* n : Z is the i32 lag; n.unsigned_abs() as usize *)
+(* n : Z is the i32 lag; n.unsigned_abs() as usize.  The guard `len <= n_abs` is evaluated on Z so that
+   i32::MIN never becomes a unary numeral; `n_abs n` is only computed when it is below `len`. *)
 Definition n_abs (n : Z) : nat := Z.abs_nat n.
+Definition len_le_nabs (len : nat) (n : Z) : bool := (Z.of_nat len <=? Z.abs n)%Z.
 
 (* tea-map/src/lib.rs:54-76 MapBasic::shift (repaired: `len <= n_abs` guard) *)
 Definition shift (n : Z) (value : val) (s : it) : res it :=
   do len <- tlen s;
-  let na := n_abs n in
-  if len <=? na then Ok (IBox (IRepeatN value len))
-  else if (0 <? n)%Z then
+  if len_le_nabs len n then Ok (IBox (IRepeatN value len))
+  else let na := n_abs n in
+  if (0 <? n)%Z then
     do k <- usub len na;
     Ok (IBox (ITrust (IChain true true (IRepeatN value na) (ITake s k)) len))
   else if (n <? 0)%Z then
@@ -369,9 +371,9 @@ Definition pair_f (h : val -> val -> val) (p : val) : val :=
 
 Definition lagged (h : val -> val -> val) (zero : val) (n : Z) (value : val) (xs : list val) : res it :=
   let len := length xs in
-  let na := n_abs n in
-  if len <=? na then Ok (IBox (IRepeatN value len))
-  else if (0 <? n)%Z then
+  if len_le_nabs len n then Ok (IBox (IRepeatN value len))
+  else let na := n_abs n in
+  if (0 <? n)%Z then
     do k <- usub len na;
     Ok (IBox (ITrust (IMap (pair_f h)
                        (IZip (IChain true true (IRepeatN value na) (ITake (IList xs) k)) (IList xs))) len))
